@@ -7,6 +7,8 @@ fn main() {
     cfg.p_malformed = 1;
     cfg.queries = false;
     cfg.admin_ops = false;
+    // two of the six codes are registered through ContractWrapper::new_with_empty(..).with_*_empty(..)
+    cfg.wrapped_codes = true;
     run_prop("C04", "c04", cfg, 150, 1500, vec![],
         "scenarios with low failure rate, every combination of attributes (none / some / empty values), custom events, data in {absent, empty, non-empty} at every node and reply handler, all reply_on modes; distinct by SHA-256; non-trivial = a successful top-level call returned at least 3 events and a reply was invoked",
         &|_, obs| obs.iter().any(|o| matches!(&o.outcome, OutcomeS::Ok(v) if v.iter().any(|r| r.0.len() >= 3)) && o.trace.iter().any(|e| matches!(e, Entry::Call { ep: Ep::Reply, .. }))));
